@@ -132,10 +132,29 @@ def run(repo: Repo, rep: Report, tier: str) -> None:
                           "when the mapped variant fails to decode control can reach the sequential first-success loop (the payload is retried as another variant)", su.loc(mnode.ast))
         # presence: every positive guard conjunct that looks at <m>.property_name must be the key-presence test `<m>.property_name in <payload>`
         conj: List[ast.AST] = []
+        def _neg(e: ast.AST) -> ast.AST:
+            if isinstance(e, ast.UnaryOp) and isinstance(e.op, ast.Not):
+                return e.operand
+            if isinstance(e, ast.Compare) and len(e.ops) == 1 and isinstance(e.ops[0], (ast.In, ast.NotIn)):
+                return ast.copy_location(ast.Compare(left=e.left, ops=[ast.NotIn() if isinstance(e.ops[0], ast.In) else ast.In()], comparators=e.comparators), e)
+            return ast.copy_location(ast.UnaryOp(op=ast.Not(), operand=e), e)
+
         for g, pol in guards(cfg, mnode.id, dom):
-            if g.kind != "test" or pol is not True or id(g.ast) not in inside:
+            if g.kind != "test" or pol is None or id(g.ast) not in inside:
                 continue
-            conj += conjuncts(g.ast, L, stop=(mvar,) + tuple(L.params))
+            if pol is True:
+                conj += conjuncts(g.ast, L, stop=(mvar,) + tuple(L.params))
+            else:
+                # guard-and-continue style: on the false branch of `A or B` both `not A` and `not B` hold
+                t = g.ast
+                while isinstance(t, ast.UnaryOp) and isinstance(t.op, ast.Not) and isinstance(t.operand, ast.UnaryOp) and isinstance(t.operand.op, ast.Not):
+                    t = t.operand.operand
+                if isinstance(t, ast.UnaryOp) and isinstance(t.op, ast.Not):
+                    conj += conjuncts(t.operand, L, stop=(mvar,) + tuple(L.params))
+                elif isinstance(t, ast.BoolOp) and isinstance(t.op, ast.Or):
+                    conj += [_neg(v) for v in t.values]
+                else:
+                    conj.append(_neg(t))
         stop = (mvar,) + tuple(L.params)
 
         def presence_like(c: ast.AST) -> Optional[bool]:
